@@ -266,7 +266,7 @@ pub fn run_c04(tier: &str, seed: u64, replay: Option<&str>) -> (Meta, Report) {
 
 // ===================================================================================== C10
 
-const C10_LOSS: [Option<(Ent, Kind, usize)>; 7] = [None, Some((0, Kind::Eof, 0)), Some((0, Kind::Eof, 1)), Some((1, Kind::AckEof, 0)), Some((1, Kind::AckEof, 1)), Some((1, Kind::Finished, 0)), Some((0, Kind::AckFin, 0))];
+const C10_LOSS: [Option<(Ent, Kind, usize)>; 9] = [None, Some((0, Kind::Eof, 0)), Some((0, Kind::Eof, 1)), Some((1, Kind::AckEof, 0)), Some((1, Kind::AckEof, 1)), Some((1, Kind::Finished, 0)), Some((0, Kind::AckFin, 0)), Some((0, Kind::FileData, 1)), Some((0, Kind::FileData, 3))];
 
 /// (who, trigger class 0 emit(e0)/1 arrive(e1)/2 arrive(e0), index, mode idx, nak idx, loss idx, blackout 0 none/1 peer silent after the cancel, size)
 type C10Spec = (usize, usize, usize, usize, usize, usize, usize, usize);
@@ -381,6 +381,21 @@ pub fn judge_c10(info: &Info, log: &RunLog, rep: &mut Report) {
         }
     }
     rep.count("c10_checked:destination-observations");
+    // once the receiver has reported the transaction cancelled, nothing may be delivered any more
+    let cancel_ind = d.finished(t.dst, id).into_iter().find(|x| x.2.report.condition == Condition::CancelReceived && !is_success(x.2)).map(|x| (x.0, x.1));
+    if let Some((ci, ct)) = cancel_ind {
+        rep.count("c10_checked:nothing-delivered-after-cancel-report");
+        if let Some(s) = d.finished(t.dst, id).into_iter().find(|x| x.0 > ci && is_success(x.2)) {
+            rep.violate("delivery-reported-after-cancel", format!("cfg={} cancel-at={}", info.knobs[0].shape(), if who == t.src { "sender" } else { "receiver" }), &info.case, w(&format!("the receiver reported the transaction cancelled at {:.3}s and a successful delivery at {:.3}s", ct as f64 / 1e6, s.1 as f64 / 1e6)));
+        }
+        let obs = d.dests(0);
+        let before = obs.iter().filter(|x| x.0 <= ci || x.1 <= ct).last().map(|x| x.2.clone());
+        if let Some(bf) = before {
+            if let Some(ch) = obs.iter().find(|x| x.1 > ct && *x.2 != bf) {
+                rep.violate("file-appears-after-cancel", format!("cfg={} cancel-at={} complete={}", info.knobs[0].shape(), if who == t.src { "sender" } else { "receiver" }, ch.2.as_deref() == Some(t.content.as_slice())), &info.case, w(&format!("the destination name changed at {:.3}s, after the receiver had reported the transaction cancelled at {:.3}s", ch.1 as f64 / 1e6, ct as f64 / 1e6)));
+            }
+        }
+    }
     let (c_idx, c_t) = match cancel {
         Some(c) => (c.0, c.1),
         None => {
@@ -430,6 +445,13 @@ pub fn judge_c10(info: &Info, log: &RunLog, rep: &mut Report) {
     if faulted_before {
         rep.count("c10_cancel_after_fault");
     }
+    // ... and a receiver that had already concluded the transfer (for whatever outcome) before the
+    // cancel could reach it keeps that outcome: the cancel lost the race against the end of the transfer
+    let concluded_first = d.finished(t.dst, id).first().map(|f| f.2.report.condition != Condition::CancelReceived).unwrap_or(false);
+    if concluded_first {
+        rep.count("c10_cancel_lost_race_against_end");
+    }
+    let faulted_before = faulted_before || concluded_first;
     if rs.is_none() && !faulted_before {
         if has_cancel_cond(who) {
             rep.count("c10_checked:canceller-reports-cancel");
@@ -458,7 +480,9 @@ pub fn judge_c10(info: &Info, log: &RunLog, rep: &mut Report) {
     }
     // 4. a file equal to the source under the destination name needs a success report
     let fin = d.dest_final(0).cloned().flatten();
-    if !t.src_name.is_empty() && fin.as_deref() == Some(t.content.as_slice()) && initial.as_deref() != Some(t.content.as_slice()) {
+    // (judged only when every byte really reached the receiver: a hole of zeros in a file of zeros proves nothing)
+    let all_delivered = crate::p_proto::covered_bytes(d.arrivals(t.dst, id).iter().map(|a| a.3), t.content.len()).iter().all(|c| *c);
+    if !t.src_name.is_empty() && all_delivered && fin.as_deref() == Some(t.content.as_slice()) && initial.as_deref() != Some(t.content.as_slice()) {
         if rs.is_none() {
             rep.violate("file-delivered-without-success-report", format!("cfg={} cancel-at={}", info.knobs[0].shape(), role), &info.case, w("the destination name holds the complete file at the end although the receiver never reported a successful delivery"));
         } else {
@@ -475,10 +499,10 @@ pub fn run_c10(tier: &str, seed: u64, replay: Option<&str>) -> (Meta, Report) {
     let meta = Meta {
         property: "C10",
         level: "fault_enumeration",
-        rule: "sys = Cancel issued at the sender or at the receiver after EVERY emission of the sender, EVERY arrival at the receiver and each of the first three arrivals at the sender, for a 4-segment and an empty file x {ack (deferred/immediate NAK), unack, unack+closure} x {no loss, loss of the 1st EOF, 2nd EOF, 1st/2nd ACK(EOF), 1st Finished, 1st ACK(Finished)} plus peer never heard again after the cancel (complete; quick tier takes every 3rd case by seed); rand = random sizes/indices/delays with extra dup/delay faults. distinct_nontrivial = distinct (config, size, event-order) signatures among runs in which the cancel reached a live transaction.".into(),
+        rule: "sys = Cancel issued at the sender or at the receiver after EVERY emission of the sender, EVERY arrival at the receiver and each of the first three arrivals at the sender, for a 4-segment and an empty file x {ack (deferred/immediate NAK), unack, unack+closure} x {no loss, loss of the 1st EOF, 2nd EOF, 1st/2nd ACK(EOF), 1st Finished, 1st ACK(Finished), 2nd or 4th file-data PDU} plus peer never heard again after the cancel (complete; quick tier takes every 3rd case by seed); rand = random sizes/indices/delays with extra dup/delay faults. distinct_nontrivial = distinct (config, size, event-order) signatures among runs in which the cancel reached a live transaction.".into(),
         exhaustive: thorough,
         assumptions: vec!["a cancel may lose the race against completion: the cancel-condition rule is applied only when the receiver never reported a successful delivery".into(), "in unacknowledged mode without closure a receiver-side cancel cannot be signalled to the sender; only termination and the file rule are judged there".into()],
-        require: vec![("c10_cancels:sender".into(), 200), ("c10_cancels:receiver".into(), 200), ("c10_checked:peer-reports-cancel".into(), 100)],
+        require: vec![("c10_cancels:sender".into(), 150), ("c10_cancels:receiver".into(), 150), ("c10_checked:peer-reports-cancel".into(), 40), ("c10_checked:nothing-delivered-after-cancel-report".into(), 100)],
         extra: vec![],
     };
     if let Some(r) = replay {
